@@ -45,12 +45,21 @@ func quiescentMap(m mapAPI, nkeys int) (size, ranged, loaded, walked int, dup bo
 func runSizeQ(a *args, res *result) {
 	res.Rule = "round = a concurrent phase of the C03/C04/C02 workloads (hot keys, slot churn, grow/shrink waves, Clear racing inserts; perturbation concentrated between slot update and counter update) followed by a quiescent point at which Size/Count, the number of pairs Range visits, the number of universe keys Load/Get finds and the walked table size are compared; caches additionally: Count >= live, Count == live right after DeleteExpired, Count == 0 right after Clear; non-trivial = a grow, shrink or Clear overlapped the writers of the round; distinct = hash of the round configuration and its outcome (sizes, growths, shrinks)"
 	vshim.SetLiveBudget(1 << 28)
+	sizeTwinsOnly = a.prop == "C12"
 	for i := int64(0); i < a.n; i++ {
 		if !a.mine(i) {
 			continue
 		}
 		r := newRng(a.seed, uint64(i)*8+4)
 		fp := newFP()
+		if sizeTwinsOnly && i%2 == 0 {
+			parallelFill(r, res, i)
+			continue
+		}
+		if sizeTwinsOnly {
+			shrinkDance(r, res, i)
+			continue
+		}
 		if i%16 == 5 {
 			parallelFill(r, res, i)
 			continue
@@ -173,7 +182,24 @@ type sizeTarget struct {
 	rng   func(f func(k int, v any) bool)
 }
 
+// sizeTwinsOnly restricts the flavours to the twin pairs (C12: the twins must
+// report equal counts, which at a quiescent point means each must be exact).
+var sizeTwinsOnly bool
+
 func newSizeTarget(r rng, hint int, nkeys int) *sizeTarget {
+	if sizeTwinsOnly {
+		if r.chance(0.6) {
+			sp := mapSpec{Flavor: pick(r, []string{"Map", "MapOf[string,any]"}), Hint: hint, NKeys: nkeys}
+			m := newMap(sp)
+			return &sizeTarget{specName(sp), m.Store, m.Delete, m.Size, m.Range}
+		}
+		sp := cacheSpec{Flavor: pick(r, cacheFlavors[:2]), Ctor: "New", OptMask: 1 | 2 | 8, DefExp: time.Hour, Interval: 0, MinCap: hint, NKeys: nkeys}
+		if hint == noHint {
+			sp.OptMask = 1 | 2
+		}
+		c := newCache(sp)
+		return &sizeTarget{sp.Flavor, func(k int, v any) { c.Set(k, v, time.Hour) }, c.Delete, c.Count, c.Range}
+	}
 	if r.chance(0.7) {
 		sp := mapSpec{Flavor: pick(r, mapFlavors), Hint: hint, NKeys: nkeys}
 		if sp.Flavor != "Map" && r.chance(0.3) {
